@@ -161,6 +161,8 @@ func TestVerifC06(t *testing.T) {
 				}
 			})
 			r.EvalN(pn+"|shared-aead-concurrent", len(jobs))
+			// object lifetimes: an AEAD must keep sealing correctly after sibling AEADs / its Block were collected
+			lifetimeHistories(r, rng, pn, hk.N(4, 24), false, false, true)
 		})
 	}
 	for _, asm := range paths() {
